@@ -468,18 +468,18 @@ def nonempty_subsets(names):
     return out
 
 
-def pc_options(comp, phases, full=True):
+def pc_options(comp, phases, full=True, extras=True):
     """All phase configurations of one component: None | every non-empty subset of the phases."""
     names = list(phases)
     subs = nonempty_subsets(names) if full else [[names[0]], [names[-1]]]
     k = comp["k"]
     if k in PHASE_LIST_KINDS:
         # a list naming only a phase the system does not define: the component is listed for no phase, i.e. inactive in all of them
-        return [None] + subs + ([["zz"]] if full else [])
+        return [None] + subs + ([["zz"]] if (full and extras) else [])
     if k in LOADS:
         key = {"PLoad": "pwr", "ILoad": "ii", "RLoad": "rs"}[k]
         out = [None] + [{p: _r(abs(comp["a"][key]) * _PHMULT[p]) for p in s} for s in subs]
-        if k != "RLoad":  # an explicit 0 for a phase is a configured value, not an absent phase (sleep value must NOT be used)
+        if k != "RLoad" and extras:  # an explicit 0 for a phase is a configured value, not an absent phase (sleep value must NOT be used)
             z = {p: _r(abs(comp["a"][key]) * _PHMULT[p]) for p in names}
             z[names[0]] = 0.0
             out.append(z)
